@@ -74,18 +74,19 @@ ShlLimbs(x, s) == [i \in 1..Len(x) |-> Add(Lo(Shl(x[i], s)), IF i > 1 THEN Shr(x
 ShlCarry(x, s) == IF s = 0 THEN Zero ELSE Shr(x[Len(x)], W - s)
 
 (* div_rem_limb_with_reciprocal (div_limb.rs:267-285)                       *)
-RECURSIVE LimbLoop(_, _, _, _, _, _)
-LimbLoop(u, j, r, dn, rv, q) ==
-  IF j = 0 THEN <<q, r>>
+RECURSIVE LimbLoop(_, _, _, _, _, _, _)
+LimbLoop(u, j, r, dn, rv, q, c) ==                             \* c = <<steps with the first, with the second correction>>
+  IF j = 0 THEN <<q, r, c>>
   ELSE LET s == Div2by1(r, u[j], dn, rv)
-       IN LimbLoop(u, j - 1, s.r, dn, rv, [q EXCEPT ![j] = s.q])
+       IN LimbLoop(u, j - 1, s.r, dn, rv, [q EXCEPT ![j] = s.q],
+                   <<c[1] + (IF s.path[1] THEN 1 ELSE 0), c[2] + (IF s.path[2] THEN 1 ELSE 0)>>)
 DivRemLimb(n, d) ==                                           \* n word sequence, d non-zero word
   LET shift == W - BitLen(d)
       dn    == Shl(d, shift)
       rv    == Recip(dn)
       us    == ShlLimbs(n, shift)
-      lp    == LimbLoop(us, Len(n), ShlCarry(n, shift), dn, rv, [i \in 1..Len(n) |-> Zero])
-  IN [q |-> Val(lp[1]), r |-> Shr(lp[2], shift)]
+      lp    == LimbLoop(us, Len(n), ShlCarry(n, shift), dn, rv, [i \in 1..Len(n) |-> Zero], <<0, 0>>)
+  IN [q |-> Val(lp[1]), r |-> Shr(lp[2], shift), corr |-> lp[3]]
 
 --------------------------------------------------------------------------
 (* div_rem_vartime (div.rs:195-301): dividend n of ll words, divisor whose  *)
